@@ -33,11 +33,11 @@ def main():
     ]
     if c.setup():
         for label, kw in configs(c.tier):
-            c.run(label, 'rsym.hb', 'ExtendUnion', kw, required_witnesses=('alt:perm',) if 'perm' in kw.get('alts_kinds', ('perm',)) else (), time_cap=150 if c.tier == 'quick' else 900)
+            c.run(label, 'rsym.hb', 'ExtendUnion', kw, required_witnesses=('alt:perm',) if 'perm' in kw.get('alts_kinds', ('perm',)) else (), time_cap=600 if c.tier == 'quick' else 900)
         # any number of extensions: extend_struct is build_struct on a wrapper holding the old root, i.e. the inductive step of DESIGN §3.4
         for label, kw in [('inductive step (one more document for an arbitrary root state): 1 old child + grandchild', dict(k=1, j=0, slots=2, new=1, gk=1)),
                           ('inductive step: 2 old attributes', dict(k=0, j=2, slots=0, new=0))] + ([('inductive step: 2 old children, 2 slots', dict(k=2, j=0, slots=2, new=1))] if c.tier == 'thorough' else []):
-            c.run(label, 'rsym.hb', 'InductiveStep', kw, time_cap=150 if c.tier == 'quick' else 900, path_cap=400000)
+            c.run(label, 'rsym.hb', 'InductiveStep', kw, time_cap=600 if c.tier == 'quick' else 900, path_cap=400000)
     c.finish(bounds={'skeletons': [l for l, _ in configs(c.tier)], 'documents': '<= 3 (4 in one thorough family)', 'alternatives': 'every permutation, every single repetition, an element-less document at every later position, a reader error at every cut of the last document'},
              outside=['sequences longer than the bounded families are covered only through the inductive step (one more document from an arbitrary state of the root node, one level)', 'documents outside the skeletons'],
              trusted=['rsym + models', 'z3', 'tools/replay'],
